@@ -67,6 +67,9 @@ def enumerated(tier, seed):
         ([[0], [3], [6]], [0.7, 0.2, 0.1], [3]),
         ([[1, 1, 1], [4, 4, 4], [7, 1, 4]], [5.0, 0.5, 2.5], [2, 1, 4]),
         ([[2, 0], [0, 2]], [0.35, 0.65], [2, 2]),
+        # un-normalised weights on a tiny scale (any positive weights are legal): ratios are what matters
+        ([[1], [2], [3]], [1e-16, 3e-16, 6e-16], [2]),
+        ([[1, 1], [0, 3]], [2e-300, 6e-300], [2, 3]),
     ]
     n = 20000 if tier == "quick" else 100000
     for i, (k, w, s) in enumerate(dists):
